@@ -504,6 +504,72 @@ def read (t : Huffman.Table) (bytes : List UInt8) (tokenHint : Option Bool) (buf
     else .lift (readBody hw.1 hw.2 payload0 .input [] tokenHint)
   | _ => .err .tooShort []
 
+/-! ### the same functions with the Huffman decoder as a parameter
+
+`decompress t = decompressWith (Huffman.decompress t)` etc. are theorems (`Tw/Proofs/Packet6Read.lean`); the
+drivers evaluate `readWith (Huffman.decompressFast t)`, which is equal by `Tw.Huffman.decompressFast_eq`. -/
+
+/-- `Packet::decompress_impl` with the Huffman decoder as a parameter (the drivers pass the proven-equal
+`Huffman.decompressFast`, see `readWith_decompress`); into a buffer with `cap` free bytes -/
+def decompressWith (dec : List UInt8 → Nat → Huffman.DecResult) (packet : List UInt8) (cap : Nat) : DecompressResult :=
+  if cap < MAX_PACKETSIZE then .panic "decompress: buffer.remaining() >= MAX_PACKETSIZE"
+  else if ¬ needsDecompression packet then .panic "decompress: needs_decompression(packet)"
+  else match packet with
+    | b0 :: b1 :: b2 :: payload =>
+      let h := (PacketHeader.unpackWarn b0.toNat b1.toNat b2.toNat).1
+      -- `header.flags & !PACKETFLAG_COMPRESSION` on `u8`
+      match PacketHeader.pack { h with flags := h.flags &&& (255 - PACKETFLAG_COMPRESSION) } with
+      | none => .panic "PacketHeader::pack"
+      | some fake =>
+        match bufWrite cap [] (ofNat3 fake) with
+        | none => .panic "decompress: buffer.write(fake_header).unwrap()"
+        | some b1 =>
+          match dec payload (cap - b1.length) with
+          | .ok out => .ok (b1 ++ out)
+          | .capacity => .capacity
+          | .diverge => .diverge
+    | _ => .panic "decompress: packet too short for header"
+
+
+/-- `Packet::decompress_if_needed` with the Huffman decoder as a parameter (the drivers pass the proven-equal
+`Huffman.decompressFast`, see `readWith_decompress`); -/
+def decompressIfNeededWith (dec : List UInt8 → Nat → Huffman.DecResult) (packet : List UInt8) (cap : Nat) : DinResult :=
+  if cap < MAX_PACKETSIZE then .panic "decompress_if_needed: buffer.remaining() >= MAX_PACKETSIZE"
+  else if ¬ needsDecompression packet then .ok false []
+  else match decompressWith dec packet cap with
+    | .ok s => .ok true s
+    | .capacity => .err
+    | .panic s => .panic s
+    | .diverge => .diverge
+
+
+/-- `Packet::read_impl` with the Huffman decoder as a parameter (the drivers pass the proven-equal
+`Huffman.decompressFast`, see `readWith_decompress`);. `buffer = some cap`: `Packet::read` with a scratch buffer of `cap` free
+bytes; `buffer = none`: `read_panic_on_decompression`. -/
+def readWith (dec : List UInt8 → Nat → Huffman.DecResult) (bytes : List UInt8) (tokenHint : Option Bool) (buffer : Option Nat) :
+    ReadResult :=
+  if (match buffer with | some cap => decide (cap < MAX_PACKETSIZE) | none => false) then
+    .panic "read_impl: buffer.remaining() >= MAX_PACKETSIZE"
+  else if bytes.length > MAX_PACKETSIZE then .err .tooLong []
+  else match bytes with
+  | b0 :: b1 :: b2 :: payload0 =>
+    let hw := PacketHeader.unpackWarn b0.toNat b1.toNat b2.toNat
+    if hw.1.flags &&& PACKETFLAG_CONNLESS ≠ 0 then .lift (readConnless bytes payload0 hw.2)
+    else if hw.1.flags &&& PACKETFLAG_COMPRESSION ≠ 0 then
+      match buffer with
+      | none => .panic "read_panic_on_decompression called on compressed packet"
+      | some cap =>
+        match decompressWith dec bytes cap with
+        | .ok s =>
+          if s.length < HEADER_SIZE then .panic "ref_and_rest_from(decompressed).unwrap()"
+          else .lift (readBody hw.1 hw.2 (s.drop HEADER_SIZE) .scratch s tokenHint)
+        | .capacity => .err .compression hw.2
+        | .panic site => .panic site
+        | .diverge => .diverge
+    else .lift (readBody hw.1 hw.2 payload0 .input [] tokenHint)
+  | _ => .err .tooShort []
+
+
 /-- the byte-slice field of a packet -/
 def Packet.slice : Packet → Option (List UInt8)
   | .connless p => some p
